@@ -42,6 +42,8 @@ def build_pool():
     # pairs / tuples
     P += [Pair(u8, s8), Tup(), Tup(i32), Tup(u8, s8, Vec(u8)), Tup(Tup(u8, i8), u16),
           Tup(u16, u16), Tup(f64, f64)]
+    # wide tuples / pairs (objects of 128 bytes and more in memory, five and more members)
+    P += [Tup(s8, s8, s8, s8, s8), Tup(Arr(u64, 20), u8), Pair(Arr(u64, 17), s8), Tup(u8, u16, u32, u64, i8, i16, i32, i64, f32, f64, s8, b)]
     # maps
     P += [Map(u32, s8), Map(u8, Vec(u8)), UMap(s8, i32), UMap(u16, u8)]
     # reference wrappers
@@ -124,7 +126,9 @@ def build_pool():
     TM2 = Table('TM2', 22, [(0, True, Vec(f32)), (1, True, Arr(f32, 2)), (2, True, Pair(u8, f32)), (3, True, Tup(f32, f64)),
                             (4, True, Map(u8, f32)), (5, True, Var(f32, s8)), (6, True, Res(err8, f32)), (7, True, SC),
                             (8, True, slf), (9, True, Vec(s8)), (10, True, UMap(u16, u8)), (11, True, Wrap('WF32', f32))])
-    P += [TM1, TM2, Vec(TM1), Struct('STM2', [u8, TM2])]
+    TM3 = Table('TM3', 23, [(0, True, Tup(s8, s8, s8, s8, s8)), (1, True, Arr(s8, 5)), (2, True, Pair(Arr(u64, 17), s8)),
+                            (3, True, Struct('SWide', [s8, s8, s8, s8, s8, u64, u64]))])
+    P += [TM1, TM2, TM3, Vec(TM1), Struct('STM2', [u8, TM2])]
     # handles in containers
     P += [Vec(hd), Opt(hd), Var(hd, u8), Struct('SH', [u8, hd, hf, s8]), Tup(hd, hd)]
     # version pool of Tables.tla (pool/tables.json, emitted by TLC): every definition reachable within 4 steps
